@@ -59,7 +59,7 @@ func runC01(c *Ctx) {
 		{name: "N2.F1.nosession", n: 2, bound: vrt.Budget{F: 1}, faults: conn, keep: []bool{false}, phases: []byte{'B', 'N', 'H'}, kinds: []string{"p0", "p1", "sub"}},
 		{name: "N2.F2", n: 2, bound: vrt.Budget{F: 2}, faults: env.FaultSet{LostClose: true, AckLost: true, ConnRefuse: true}, keep: []bool{true}, phases: []byte{'B', 'H'}, kinds: []string{"p1", "p2"}},
 		{name: "N2.F1.P1.S1", n: 2, bound: vrt.Budget{F: 1, P: 1, S: 1, Total: 2}, faults: env.FaultSet{LostClose: true, AckLost: true}, keep: []bool{true}, phases: []byte{'B', 'N'}, kinds: []string{"p1", "p2"}},
-		{name: "manual.N2.F1", n: 2, bound: vrt.Budget{F: 1}, faults: conn, keep: []bool{true, false}, phases: []byte{'B', 'N', 'O'}, kinds: []string{"p1", "p2", "sub"}, manual: true},
+		{name: "manual.N2.F1", n: 2, bound: vrt.Budget{F: 1}, faults: conn, keep: []bool{true, false}, phases: []byte{'B', 'N', 'O', 'C'}, kinds: []string{"p1", "p2", "sub"}, manual: true},
 		{name: "N2.F1.connect-ctx-cancelled", n: 2, bound: vrt.Budget{F: 1}, faults: base, keep: []bool{true}, phases: []byte{'S', 'N', 'O'}, kinds: []string{"p1", "p2", "sub", "unsub"}, cancel: true},
 		{name: "N2.F1.silent-link.response-timeout", n: 2, bound: vrt.Budget{F: 1}, faults: env.FaultSet{Silent: true, SilentDrop: true, OnlyTypes: map[byte]bool{env.PUBLISH: true, env.PUBREL: true, env.SUBSCRIBE: true, env.UNSUBSCRIBE: true}}, keep: []bool{true}, phases: []byte{'S', 'N'}, kinds: []string{"p1", "p2", "sub", "unsub"}, rtmo: 2 * time.Second},
 		{name: "N2.F1.reentrant-callbacks", n: 2, bound: vrt.Budget{F: 1}, faults: base, keep: []bool{true}, phases: []byte{'B', 'S', 'N'}, kinds: []string{"p1", "p2", "sub"}, reent: true},
